@@ -53,6 +53,16 @@ func applyEdit(kind string, sdls []string, a, b, c int) {
 	case "dupSubscriptionField":
 		sdls[a] = addRootField(sdls[a], "Subscription", "clashSub: Int")
 		sdls[b] = addRootField(sdls[b], "Subscription", "clashSub: Int")
+	// names with one leading underscore are ordinary names: the same conflicts apply to them
+	case "dupUnderscoreQueryField":
+		sdls[a] = addRootField(sdls[a], "Query", "_stats: Int")
+		sdls[b] = addRootField(sdls[b], "Query", "_stats: Int")
+	case "kindUnderscoreObjectEnum":
+		sdls[a] += "type _Meta {\n  a: String\n}\n"
+		sdls[b] += "enum _Meta {\n  A\n  B\n}\n"
+	case "partialUnderscoreObject":
+		sdls[a] += "type _Page {\n  a: String\n  b: String\n}\n"
+		sdls[b] += "type _Page {\n  a: String\n  c: String\n}\n"
 	case "kindObjectEnum":
 		sdls[a] += "type Clash {\n  a: String\n}\n"
 		sdls[b] += "enum Clash {\n  A\n  B\n}\n"
@@ -172,7 +182,7 @@ func applyEdit(kind string, sdls []string, a, b, c int) {
 	}
 }
 
-var conflictKinds = []string{"dupQueryField", "dupMutationField", "dupSubscriptionField", "kindObjectEnum", "kindScalarObject", "kindInputObject",
+var conflictKinds = []string{"dupUnderscoreQueryField", "kindUnderscoreObjectEnum", "partialUnderscoreObject", "dupQueryField", "dupMutationField", "dupSubscriptionField", "kindObjectEnum", "kindScalarObject", "kindInputObject",
 	"kindInterfaceUnion", "nodeOneSide", "nodeFieldTwice", "nodeFieldTwicePartial", "partialObject", "partialObjectSubset", "partialInput", "partialInputSubset", "partialInterface", "partialInterfaceSubset", "idFieldType", "idInputFieldType", "idFieldArgs",
 	"fieldType", "fieldNullability", "fieldListWrapper", "fieldListElemNullability", "argListWrapper", "inputFieldListWrapper", "fieldArgs", "fieldArgType", "inputFieldType", "inputFieldDefault", "argDefault", "unionMembers", "unionMembersDisjoint"}
 var neutralKinds = []string{"neutralThreeWay", "neutralIdentical", "neutralDisjoint", "neutralEnumExtend", "neutralStubInterface", "neutralCopyWithInterface", "neutralUnderscoreRootFields"}
@@ -340,7 +350,7 @@ func genConflictCase(t *rapid.T) (*ConflictCase, *world.Model) {
 
 func TestC05(t *testing.T) {
 	rec := ev.Get("C05")
-	rec.Rule = "mergeable world (2..4 services) + 0..2 conflict edits from a catalogue of 26 (duplicate root field in Query/Mutation/Subscription, one name two kinds, Node on one side, Node field twice, partial overlap of objects/inputs, differing field type/nullability/arguments, differing union members) + 0..2 neutral edits (identical copies, disjoint split, three-way split, enum extension); every service SDL stays individually valid; all permutations of the service list are merged; non-trivial = an edit applied or >=3 services; distinct by hash(SDLs, merger)"
+	rec.Rule = "mergeable world (2..4 services) + 0..2 conflict edits from a catalogue of 35 (duplicate root field in Query/Mutation/Subscription, one name two kinds, Node on one side, Node field twice, partial overlap of objects/inputs, differing field type/nullability/arguments, differing union members) + 0..2 neutral edits (identical copies, disjoint split, three-way split, enum extension); every service SDL stays individually valid; all permutations of the service list are merged; non-trivial = an edit applied or >=3 services; distinct by hash(SDLs, merger)"
 	defer census.dump("C05")
 	rapid.Check(t, func(t *rapid.T) {
 		c, m := genConflictCase(t)
